@@ -27,7 +27,7 @@ def expected_rows(h, solver, stub=False):
     for u in h.stages["S"]:
         if u["out"] is None:
             break
-        row = {"dt": u["dt"]}
+        row = {"dt": used_dt(u)}
         if stub:
             # the stub's values carry no physics: the row is what the stub appended
             row.update({k: np.asarray(v).ravel() for k, v in u["rs_row"].items() if k != "dt"})
@@ -39,6 +39,15 @@ def expected_rows(h, solver, stub=False):
                 row["screening_iterations"] = np.array([u["n_screen"]], dtype=float)
         rows.append(row)
     return rows
+
+
+def used_dt(u):
+    """The time step an update actually used: the dt of the accepted psi attempt when the
+    update went through the real psi seam (Engine A), else the dt it reported (stub)."""
+    acc = [a for a in u.get("attempts", []) if not a[1]]
+    if acc:
+        return acc[-1][0]
+    return u["dt"]
 
 
 def model_times(dts):
@@ -74,7 +83,7 @@ def check_frames(h, frames, k, solve_time, stopped_at=None, source="captured"):
     V = []
     S = h.stages["S"]
     done = [u for u in S if u["out"] is not None]
-    dts = [u["dt"] for u in done]
+    dts = [used_dt(u) for u in done]
     t_model = model_times(dts)
     # label times reported to the update seam, one per started update
     label_times = [u["time"] for u in S]
